@@ -447,8 +447,12 @@ func randLane(p refnum.Param, bits int, mode, r uint64) uint64 {
 		m = 1<<uint(bits) - 1
 	}
 	switch mode % 4 {
-	case 0, 1:
+	case 0: // the drawn word as is (rapid favours small and boundary magnitudes)
 		return r & m
+	case 1: // uniformly distributed bits: a bijective mix of the drawn word
+		r = (r ^ r>>30) * 0xbf58476d1ce4e5b9
+		r = (r ^ r>>27) * 0x94d049bb133111eb
+		return (r ^ r>>31) & m
 	case 2:
 		return set[r%uint64(len(set))] & m
 	}
